@@ -54,7 +54,25 @@ func (w *Waiter) Left() int { w.mu.Lock(); defer w.mu.Unlock(); return w.left }
 // settle waits until cond holds or the scenario has reached a final state.
 // Returns "ok" (cond met), "stuck" (final state with cond false: nothing can
 // ever change again) or "timeout" (inconclusive).
+// spinGuard, when set by a check whose scenario can livelock (a goroutine of the library spinning
+// on a failed transport never lets a final state come about), makes settle and quiet return as soon
+// as it reports true; settle then answers "livelock".
+var spinGuard func() bool
+
 func settle(tier string, cond func() bool) (string, *quiesce.Snapshot) {
+	if g := spinGuard; g != nil {
+		inner := cond
+		cond = func() bool { return inner() || g() }
+		st, snap := settleRaw(tier, cond)
+		if st == "ok" && !inner() {
+			return "livelock", snap
+		}
+		return st, snap
+	}
+	return settleRaw(tier, cond)
+}
+
+func settleRaw(tier string, cond func() bool) (string, *quiesce.Snapshot) {
 	// fast path: spin briefly without snapshots
 	for i := 0; i < 200; i++ {
 		if cond() {
@@ -74,7 +92,7 @@ func settle(tier string, cond func() bool) (string, *quiesce.Snapshot) {
 
 // quiet waits for a final state (used as a stage boundary).
 func quiet(tier string) (bool, *quiesce.Snapshot) {
-	snap, final, _ := quiesce.Wait(watchdog(tier), nil)
+	snap, final, _ := quiesce.Wait(watchdog(tier), spinGuard)
 	return final, snap
 }
 
